@@ -36,7 +36,7 @@ Definition canb (x : bytes) (b : batch) : Prop :=
     x = th H h rp t /\ length b = 31 /\ bget b 0 = [flagb t] /\ lrep h b 0 rp t.
 
 Definition inv_st (st : store) : Prop :=
-  (forall x b, alookup (upd st) x = Some b -> canb x b) /\
+  (forall x b, In (x, b) (upd st) -> canb x b) /\
   (forall x val, alookup (db st) x = Some val -> val <> [] -> canb x (parse_batch val)).
 
 (** ---- enc ---- *)
@@ -99,10 +99,22 @@ Proof.
   - intros Hx. right. eapply alookup_aremove; eauto.
 Qed.
 
+Lemma alookup_in {A} (l : list (bytes * A)) x v : alookup l x = Some v -> In (x, v) l.
+Proof.
+  induction l as [|[k' v'] l IH]; simpl; [discriminate|]. destruct (beqb k' x) eqn:E0.
+  - apply beqb_eq in E0. subst. intros E'; inversion E'; auto.
+  - auto.
+Qed.
+
+Lemma in_aremove {A} (l : list (bytes * A)) k e : In e (aremove l k) -> In e l.
+Proof.
+  induction l as [|[k' v'] l IH]; simpl; [auto|]. destruct (beqb k' k); [intros Hin; right; auto|simpl; intros [->|Hin]; auto].
+Qed.
+
 Lemma inv_delete atomic st root mv : inv_st st -> inv_st (delete_old_node atomic st root mv).
 Proof.
   intros [Hu Hd]. unfold delete_old_node. destruct (negb atomic || mv); [|split; auto].
-  split; simpl; auto. intros x b Hx. apply Hu. eapply alookup_aremove; eauto.
+  split; simpl; auto. intros x b Hx. apply Hu. eapply in_aremove; eauto.
 Qed.
 
 Lemma inv_store_node atomic st b hh old : inv_st st -> canb (map_key hh) b -> inv_st (store_node atomic st b hh old).
@@ -110,7 +122,7 @@ Proof.
   intros [Hu Hd] Hc. unfold store_node.
   set (st1 := {| db := db st; upd := aput (upd st) (map_key hh) b |}).
   assert (I1 : inv_st st1).
-  { split; simpl; auto. intros x b' Hx. apply alookup_aput in Hx. destruct Hx as [[-> ->]|Hx]; auto. }
+  { split; simpl; auto. intros x b' [Hx|Hx]; [inversion Hx; subst; exact Hc|]. apply Hu. eapply in_aremove; eauto. }
   destruct (Nat.ltb (length old) 32 || negb (beqb (hash_of hh) (hash_of old))); [apply inv_delete|]; exact I1.
 Qed.
 
@@ -224,7 +236,7 @@ Proof.
   rewrite (map_key_hash_of root Lr), Hr in Hl.
   assert (Hc : canb (th H h rp t) b).
   { destruct (alookup (upd st) (th H h rp t)) as [b0|] eqn:Eu.
-    - inversion Hl; subst. apply Hu. exact Eu.
+    - inversion Hl; subst. apply Hu. apply alookup_in. exact Eu.
     - destruct (alookup (db st) (th H h rp t)) as [val|] eqn:Ed; [|discriminate].
       destruct val as [|x val'] eqn:Ev; [discriminate|]. inversion Hl; subst. apply (Hd _ _ Ed). discriminate. }
   destruct Hc as (h2 & rp2 & t2 & Hm2 & Hh2 & W2 & V2 & Hne2 & Ex & Lb & F0 & R).
